@@ -157,11 +157,33 @@ def cutAux (bs : List Nat) : Nat → Char → Str → List Str
 
 def cutText (bs : List Nat) (t : Str) : List Str := cutAux bs 0 ' ' t
 
-/-- cut a location after the comma at position `i` when `i ∈ bs` and something follows -/
+/-- `wrapAux` for qualifier values, which may hold quotation marks: in addition no break between a
+quotation mark and a '/' (a line ending in `"` followed by a line beginning with `/` reads as the end of the
+value to every reader) -/
+def wrapAuxV (bs : List Nat) : Nat → Char → Str → List Str
+  | _, _, [] => [[]]
+  | _, _, [c] => [[c]]
+  | i, p, c :: n :: rest =>
+    if c = ' ' ∧ p ≠ ' ' ∧ n ≠ ' ' ∧ ¬ (p = '"' ∧ n = '/') ∧ i ∈ bs then [] :: wrapAuxV bs (i + 1) c (n :: rest)
+    else consHead c (wrapAuxV bs (i + 1) c (n :: rest))
+
+def wrapTextV (bs : List Nat) (t : Str) : List Str := wrapAuxV bs 0 ' ' t
+
+/-- `cutAux` for qualifier values: no cut between a quotation mark and a '/' -/
+def cutAuxV (bs : List Nat) : Nat → Char → Str → List Str
+  | _, _, [] => [[]]
+  | i, p, c :: rest =>
+    if p ≠ ' ' ∧ c ≠ ' ' ∧ ¬ (p = '"' ∧ c = '/') ∧ i ∈ bs then [] :: consHead c (cutAuxV bs (i + 1) c rest)
+    else consHead c (cutAuxV bs (i + 1) c rest)
+
+def cutTextV (bs : List Nat) (t : Str) : List Str := cutAuxV bs 0 ' ' t
+
+/-- cut a location after the comma at position `i` when `i ∈ bs`, something follows and what follows
+does not begin with '/' (a continuation line beginning with '/' is a qualifier line) -/
 def cutLocAux (bs : List Nat) : Nat → Str → List Str
   | _, [] => [[]]
   | i, c :: rest =>
-    if c = ',' ∧ rest ≠ [] ∧ i ∈ bs then [c] :: cutLocAux bs (i + 1) rest
+    if c = ',' ∧ rest ≠ [] ∧ rest.head? ≠ some '/' ∧ i ∈ bs then [c] :: cutLocAux bs (i + 1) rest
     else consHead c (cutLocAux bs (i + 1) rest)
 
 def cutLoc (bs : List Nat) (t : Str) : List Str := cutLocAux bs 0 t
@@ -211,15 +233,16 @@ def extrasLines : List (Str × Str) → List (List Nat) → List Str
 /-- the chunks of a qualifier value: `/translation` values are cut between letters, every other
 value is wrapped at blanks -/
 def valueChunks (k v : Str) (bs : List Nat) : List Str :=
-  if k = c!"translation" then cutText bs v else wrapText bs v
+  if k = c!"translation" then cutTextV bs v else wrapTextV bs v
 
 def closeLast : List Str → List Str
   | [] => []
   | [c] => [c ++ c!"\""]
   | c :: cs => c :: closeLast cs
 
-/-- a value may be written without quotes when it is not empty and holds no blank (`/codon_start=1`) -/
-def canUnquote (v : Str) : Bool := v != [] && !List.elem ' ' v
+/-- a value may be written without quotes when it is not empty and holds no blank and no quotation
+mark (`/codon_start=1`) -/
+def canUnquote (v : Str) : Bool := v != [] && !List.elem ' ' v && !List.elem '"' v
 
 /-- the lines of one qualifier.  `style` 2 and an empty value: `/key`; `style` 1 and a value that
 `canUnquote`: `/key=value` on one line; otherwise `/key="value"`, wrapped -/
@@ -365,21 +388,28 @@ def reservedKeys : List Str :=
   [c!"LOCUS", c!"DEFINITION", c!"ACCESSION", c!"VERSION", c!"KEYWORDS", c!"SOURCE", c!"REFERENCE",
    c!"FEATURES", c!"ORIGIN", c!"ORGANISM", c!"AUTHORS", c!"TITLE", c!"JOURNAL", c!"PUBMED", c!"REMARK"]
 
+/-- printable and not blank -/
+def isVisible (c : Char) : Bool := isPrint c && c != ' '
+
+/-- an extra keyword: a blank-free word of at most 11 columns that begins with a letter and is none of
+the keywords the format reserves -/
 def isExtraKey (k : Str) : Bool :=
-  k != [] && k.length ≤ 10 && k.all isUpper && !reservedKeys.contains k
+  k.length ≤ 11 && k.all isVisible && (match k with | c :: _ => isLetter c | [] => false) && !reservedKeys.contains k
 
 def distinct : List Str → Bool
   | [] => true
   | k :: ks => !ks.contains k && distinct ks
 
-def isFeatKeyChar (c : Char) : Bool := isLetter c || isDigit c || c == '_' || c == '-' || c == '\''
-def isLocChar (c : Char) : Bool :=
-  isLetter c || isDigit c || c == '.' || c == ',' || c == '(' || c == ')' || c == '<' || c == '>' || c == '^' || c == ':'
-/-- qualifier keys: letters of either case, digits, '_' (`EC_number`, `PCR_primers`, `db_xref`) -/
-def isQualKeyChar (c : Char) : Bool := isLetter c || isDigit c || c == '_'
+/-- feature keys and location texts: any visible characters -/
+def isFeatKeyChar (c : Char) : Bool := isVisible c
+def isLocChar (c : Char) : Bool := isVisible c
+/-- qualifier keys: any visible character except '=' (ends the key), '/' (starts it) and the quotation mark -/
+def isQualKeyChar (c : Char) : Bool := isVisible c && c != '=' && c != '/' && c != '"'
 
+/-- qualifier values: printable; quotation marks may stand inside, not at either end (the enclosing
+quotes are stripped as a set of characters) -/
 def wfQual (q : Str × Str) : Bool :=
-  q.1 != [] && q.1.all isQualKeyChar && q.2.all (fun c => isPrint c && c != '"')
+  q.1 != [] && q.1.all isQualKeyChar && q.2.all isPrint && q.2.head? != some '"' && q.2.getLast? != some '"'
 
 /-! Location texts: one INSDC-shaped expression — an atom (`12`, `1..5`, `<1..>9`, `102.110`, `1^2`,
 `J00194.1:100..202`) or `operator(loc,loc,…)` for any operator word (`join`, `order`, `bond`, `gap`, …),
